@@ -5,7 +5,7 @@
  'include': ['/verif/units/C19/cxxshim'],
  'params': {'GROW': [0]},
  'tier': 'thorough',
- 'clauses': 'replace_substrings(buffer, maxsize, input, inlen, sub, sublen, rep, replen) against the reference left-to-right non-overlapping substitution '
+ 'clauses': 'MATCH STRUCTURE part of the replace_substrings contract (thorough tier: 140 s): sub occurs at every recorded match position byte for byte, the next search starts at p_m + sublen, the search for match 0 starts at 0. The whole contract: replace_substrings(buffer, maxsize, input, inlen, sub, sublen, rep, replen) against the reference left-to-right non-overlapping substitution '
             '(match m = FIRST occurrence of sub in input at or behind the end of match m-1; the search for match 0 starts at 0): for every m: sub occurs at '
             'the recorded position p_m (byte for byte), it does not occur at any position between the end of the previous match and p_m (a differing byte '
             'is exhibited), the next search starts at p_m + sublen; behind the last match sub does not occur any more; sublen == 0: no match (plain copy); '
